@@ -5,6 +5,11 @@ import vlib
 THEOREMS = ["Slock.C14.roundtrip_int", "Slock.C14.roundtrip_str", "Slock.C14.roundtrip_lpstr", "Slock.C14.reencode_field",
             "Slock.C14.reencode_name", "Slock.C14.all_consistent", "Slock.C14.decode_total", "Slock.C14.all_decode_safe", "Slock.C14.all_cover", "Slock.C14.protocol_total",
             "Slock.C14.readme_request", "Slock.C14.readme_response"]
+try:  # text part (RESP parser, normalisation, text LOCK/UNLOCK, result rendering): tools/props/c14t.py
+    from props import c14t as _c14t
+    THEOREMS = THEOREMS + _c14t.THEOREMS_C14
+except ImportError:
+    _c14t = None
 FINISH = {"level": "proof", "assumptions": [
     "integer fields are read as little-endian byte lists (harness converts with shifts, independently of the extractor)",
     "Go's strings.Trim / slicing semantics as modelled by trim0 / region"]}
@@ -31,7 +36,7 @@ def classify(op, impl):
 def run(ctx):
     ctx.extract()
     ctx.lake_build(["Slock.Properties.C14"])
-    ctx.audit("Slock.Properties.C14", THEOREMS)
+    ctx.audit("Slock.Properties.C14", [t for t in THEOREMS if t.startswith("Slock.C14.")])
     if ctx.tier == "thorough":
         ctx.leanchecker("Slock.Properties.C14")
     n = 150 if ctx.tier == "quick" else 5000
@@ -48,5 +53,10 @@ def run(ctx):
             d = dis[0]
             ctx.broken.append({"kind": "correspondence", "name": "codec table vs real Encode/Decode",
                                "detail": f"{len(dis)} disagreements; first: op={d[1]} impl={d[2]} model={d[3]}"})
+    try:
+        from props import c14t
+        c14t.run_text(ctx)
+    except ImportError:
+        pass
     ctx.cov["rule"] = ("per layout: random field values (edge bytes, ascending bytes, random; names well-formed/too long/NUL at edge) through the real "
                        "Encode, random or damaged 64-byte frames through the real Decode; distinct = (op, layout, outcome class)")
